@@ -216,23 +216,95 @@ def sanitiser_strength(rep: Report) -> dict[str, set[str]]:
     tree = rep.repo.tree(TAGS)
     fn = need(find_func(tree, 'xmlSafe'), f'{TAGS}::xmlSafe')
     construct = f'{TAGS}::xmlSafe'
-    strength: set[str] = set()
-    ents = {'&': '&amp;', '<': '&lt;', '>': '&gt;', '"': '&quot;', "'": ('&#x27;', '&apos;', '&#39;')}
-    for n in ast.walk(fn):
-        if isinstance(n, ast.Call) and isinstance(n.func, ast.Attribute) and n.func.attr == 'replace' \
-                and len(n.args) == 2 and all(isinstance(a, ast.Constant) for a in n.args):
-            ch, ent = n.args[0].value, n.args[1].value
-            want = ents.get(ch)
-            if want and (ent == want or (isinstance(want, tuple) and ent in want)):
-                strength.add(ch)
-        if isinstance(n, ast.Call) and call_name(n) in ('html.escape', 'escape', 'markupsafe.escape'):
+    ents = {'&': ('&amp;',), '<': ('&lt;',), '>': ('&gt;',), '"': ('&quot;', '&#34;', '&#x22;'),
+            "'": ('&#x27;', '&apos;', '&#39;')}
+    FULL = {'&', '<', '>', '"', "'"}
+    params = [a.arg for a in fn.args.args]
+    if not params:
+        raise AnalysisError('xmlSafe has no parameter')
+    # strength of an expression: the characters neutralised in *the whole value* it derives from the
+    # parameter (None: not derived from the parameter)
+    env: dict[str, set[str] | None] = {params[0]: set()}
+
+    def html_escape_of_const(call: ast.AST, binding: dict[str, str]) -> str | None:
+        if isinstance(call, ast.Constant) and isinstance(call.value, str):
+            return call.value
+        if isinstance(call, ast.Call) and call_name(call) in ('html.escape', 'escape') and call.args:
+            a = call.args[0]
+            txt = binding.get(a.id) if isinstance(a, ast.Name) else (
+                a.value if isinstance(a, ast.Constant) and isinstance(a.value, str) else None)
+            if txt is None:
+                return None
             q = True
-            for k in n.keywords:
+            for k in call.keywords:
                 if k.arg == 'quote' and isinstance(k.value, ast.Constant):
                     q = bool(k.value.value)
-            if len(n.args) > 1 and isinstance(n.args[1], ast.Constant):
-                q = bool(n.args[1].value)
-            strength |= {'&', '<', '>'} | ({'"', "'"} if q else set())
+            import html as _html
+            return _html.escape(txt, quote=q)
+        return None
+
+    def strength_of(e: ast.AST, binding: dict[str, str]) -> set[str] | None:
+        if isinstance(e, ast.Name):
+            return env.get(e.id)
+        if isinstance(e, ast.Call):
+            cn = call_name(e) or ''
+            if cn in ('html.escape', 'escape', 'markupsafe.escape') and e.args:
+                inner = strength_of(e.args[0], binding)
+                if inner is None:
+                    return None
+                q = True
+                for k in e.keywords:
+                    if k.arg == 'quote' and isinstance(k.value, ast.Constant):
+                        q = bool(k.value.value)
+                if len(e.args) > 1 and isinstance(e.args[1], ast.Constant):
+                    q = bool(e.args[1].value)
+                return inner | {'&', '<', '>'} | ({'"', "'"} if q else set())
+            if cn in ('Markup', 'markupsafe.Markup', 'str') and e.args:
+                return strength_of(e.args[0], binding)
+            if isinstance(e.func, ast.Attribute) and e.func.attr == 'replace' and len(e.args) == 2:
+                inner = strength_of(e.func.value, binding)
+                if inner is None:
+                    return None
+                a0 = e.args[0]
+                ch = binding.get(a0.id) if isinstance(a0, ast.Name) else (
+                    a0.value if isinstance(a0, ast.Constant) else None)
+                ent = html_escape_of_const(e.args[1], binding)
+                if isinstance(ch, str) and ent is not None and ent in ents.get(ch, ()):
+                    return inner | {ch}
+                return inner
+            # any other call on the value (regex substitution, conditional rewriting, slicing
+            # helpers) keeps what was established and adds nothing
+            for a in list(e.args) + ([e.func.value] if isinstance(e.func, ast.Attribute) else []):
+                inner = strength_of(a, binding)
+                if inner is not None:
+                    return set() if cn.endswith(('.sub', '.subn')) and '&' in inner else inner
+            return None
+        return None
+
+    returns: list[set[str]] = []
+
+    def run(stmts: list[ast.stmt], binding: dict[str, str]) -> None:
+        for st in stmts:
+            if isinstance(st, ast.Assign) and len(st.targets) == 1 and isinstance(st.targets[0], ast.Name):
+                env[st.targets[0].id] = strength_of(st.value, binding)
+            elif isinstance(st, ast.For) and isinstance(st.target, ast.Name) \
+                    and isinstance(st.iter, ast.Constant) and isinstance(st.iter.value, str):
+                for chx in st.iter.value:
+                    run(st.body, {**binding, st.target.id: chx})
+            elif isinstance(st, ast.If):
+                run(st.body, binding)
+                run(st.orelse, binding)
+            elif isinstance(st, ast.Return) and st.value is not None:
+                if isinstance(st.value, ast.Constant):
+                    continue
+                got = strength_of(st.value, binding)
+                returns.append(got if got is not None else set())
+    run(fn.body, {})
+    if not returns:
+        raise AnalysisError('xmlSafe returns nothing derived from its argument')
+    strength: set[str] = set(FULL)
+    for r in returns:
+        strength &= r
     # '&' must be replaced first when replace() chains are used
     registered = any('app_template_filter' in norm(d) for d in fn.decorator_list)
     if not registered:
